@@ -401,8 +401,102 @@ func c17R5(p *engine.Prog, r *engine.Report) {
 		}
 		r.Check(okR, "C17-R5", "restore|"+fld+" restored from the epoch db", p.Pos(rs.Pos()), "filled from EpochDb.ReadAnswers", fld+" is not restored after a restart")
 	}
+	// dirty flag: persist() is skipped unless the flag it tests is set, so every mutation of a persisted
+	// map sets that flag on every path that follows it
+	{
+		gate := ""
+		for _, iff := range engine.Ifs(ps) {
+			c, _ := stripNot(iff.Cond)
+			if o, f2, ok := engine.FieldOf(engine.Origin(c)); ok && o == "qualification" && isBoolType(c.Type()) {
+				gate = f2
+			}
+		}
+		if gate == "" {
+			r.Note("C17-R5", "persist|no dirty flag", p.Pos(ps.Pos()), "persist writes unconditionally")
+		} else {
+			nMut := 0
+			for _, f := range funcsOfPkg(p, "core/ceremony") {
+				if f.Blocks == nil || f.Signature.Recv() == nil || f == ps || f == rs || isTestish(p.Pos(f.Pos())) {
+					continue
+				}
+				if nn := engine.NamedOf(f.Signature.Recv().Type()); nn == nil || nn.Obj().Name() != "qualification" {
+					continue
+				}
+				for _, b := range f.Blocks {
+					for idx, ins := range b.Instrs {
+						var m ssa.Value
+						switch x := ins.(type) {
+						case *ssa.MapUpdate:
+							m = x.Map
+						case *ssa.Call:
+							if bi, ok := x.Call.Value.(*ssa.Builtin); ok && bi.Name() == "delete" {
+								m = x.Call.Args[0]
+							}
+						}
+						if m == nil {
+							continue
+						}
+						hit := ""
+						for _, f2 := range sortedKeys(containerFieldsOf(m, "qualification", f.Pkg, 3)) {
+							if written[f2] {
+								hit = f2
+							}
+						}
+						if hit == "" {
+							continue
+						}
+						nMut++
+						// blocks (and the rest of this block) that set the flag
+						setBlocks := map[*ssa.BasicBlock]bool{}
+						sameBlockAfter := false
+						for _, b2 := range f.Blocks {
+							for j, i2 := range b2.Instrs {
+								st, ok := i2.(*ssa.Store)
+								if !ok {
+									continue
+								}
+								if o, f2, okF := engine.FieldOf(st.Addr); okF && o == "qualification" && f2 == gate {
+									if v, isC := engine.ConstBool(st.Val); isC && v {
+										if b2 == b && j > idx {
+											sameBlockAfter = true
+										} else if b2 != b {
+											setBlocks[b2] = true
+										}
+									}
+								}
+							}
+						}
+						ok := sameBlockAfter
+						if !ok {
+							ok = true
+							for _, sb := range b.Succs {
+								reach := engine.ReachAvoiding(f, sb, nil, setBlocks)
+								for rb := range reach {
+									if setBlocks[rb] {
+										continue
+									}
+									if len(rb.Instrs) > 0 {
+										if _, isRet := rb.Instrs[len(rb.Instrs)-1].(*ssa.Return); isRet {
+											ok = false
+										}
+									}
+								}
+							}
+							if len(b.Succs) == 0 {
+								ok = false
+							}
+						}
+						r.Check(ok, "C17-R5", uniq(r, engine.RelName(f)+"|mutation of "+hit+" marks the store dirty ("+gate+")"), p.InstrPos(ins), gate+" = true on every path after the mutation", "persist() returns early unless "+gate+" is set: this mutation of "+hit+" stays in memory only — a node that restarts loads the old answers and evaluates the epoch from other data than a node that did not restart")
+					}
+				}
+			}
+			if nMut < 2 {
+				r.Und("C17-R5", "answer map mutations", "", fmt.Sprintf("%d found (addAnswers, removeAnswers confirmed by reading)", nMut))
+			}
+		}
+	}
 	// persist is reached after every block (addBlock) and after a reset
-	r.Floor("C17-R5", 4, "2 maps x (persist, restore)")
+	r.Floor("C17-R5", 6, "2 maps x (persist, restore) + 2 mutations")
 }
 
 // c17ThresholdExceptions: passing returns that, by long-standing consensus behaviour, do not test a
@@ -565,4 +659,40 @@ func c17Thresholds(p *engine.Prog, r *engine.Report, f *ssa.Function, consts map
 	}
 	r.Floor("C17-R6", 30, "passing returns × thresholds")
 	_ = n
+}
+
+// containerFieldsOf: the fields of owner whose container value m IS (not merely derives from): a load of
+// the field, a join of such loads, or the result of a same-package helper returning such loads.
+func containerFieldsOf(m ssa.Value, owner string, pkg *ssa.Package, depth int) map[string]bool {
+	out := map[string]bool{}
+	if depth < 0 {
+		return out
+	}
+	v := engine.Origin(m)
+	switch x := v.(type) {
+	case *ssa.UnOp:
+		if o, f, ok := engine.FieldOf(x); ok && o == owner {
+			out[f] = true
+		}
+	case *ssa.Phi:
+		for _, e := range x.Edges {
+			if e == ssa.Value(x) {
+				continue
+			}
+			for k := range containerFieldsOf(e, owner, pkg, depth-1) {
+				out[k] = true
+			}
+		}
+	case *ssa.Call:
+		if cal := x.Call.StaticCallee(); cal != nil && cal.Pkg == pkg && cal.Blocks != nil {
+			for _, ret := range engine.Returns(cal) {
+				for _, rv := range ret.Results {
+					for k := range containerFieldsOf(rv, owner, pkg, depth-1) {
+						out[k] = true
+					}
+				}
+			}
+		}
+	}
+	return out
 }
